@@ -398,6 +398,58 @@ def run_case(case):
                                 "with lamda %.3g (after lamda %.3g) misses its optimum by %.3g "
                                 "(relative; solver %s)" % (lam2, lam, gap2, eff), wit,
                                 mech="reuse-suboptimal:" + eff, obs=obs)
+    if sum(case["rs"]) % 5 == 3 and not alias:
+        # the caller refreshes, in place, the arrays the forward operator was built from (the
+        # next frame's matrix / multiplier in the same buffers) and solves again with the SAME
+        # operator objects: the minimiser of the problem defined by the operator as it is now
+        from vf.monitors import linop_mon
+        caps = [(n_, v_) for n_, v_ in linop_mon.captured_tree(A).values()
+                if v_.flags.writeable and v_.dtype.kind in "fc" and v_.size]
+        if caps:
+            for n_, v_ in caps:
+                v_.reshape(-1)[::2] *= v_.dtype.type(-0.7)
+                v_.reshape(-1)[1::2] *= v_.dtype.type(1.2)
+            Am3 = dense(A)
+            if not cplx:
+                Am3 = Am3.real
+            ok3 = np.linalg.cond(Am3.conj().T @ Am3 + lam * np.eye(n)) <= 1e3
+            if ok3 and G is None:
+                xref3, cert3 = OPT.solve_composite(Am3, yv, g, mu=lam, z=zv)
+                low3 = OPT.objective(Am3, yv, g, xref3, mu=lam, z=zv)
+                ok3 = cert3 <= 1e-10
+            elif ok3:
+                xref3, p3, low3 = OPT.solve_with_G(Am3, yv, Gm, g, lam=lam, z=zv)
+                ok3 = p3 - low3 <= 1e-9 * max(1.0, abs(p3))
+            if ok3:
+                kw3 = dict(kw)
+                for key in ("alpha", "tau", "sigma", "x", "P"):
+                    kw3.pop(key, None)
+                if z is not None:
+                    kw3["z"] = zv.reshape(z.shape).copy()
+                try:
+                    xr3 = sp.app.LinearLeastSquares(A, yv.reshape(y.shape).copy(), **kw3).run()
+                except Exception as e:
+                    inn = e
+                    while inn.__cause__ is not None:
+                        inn = inn.__cause__
+                    return violated(sig, "solve after the operator's arrays were refreshed in "
+                                    "place raised %s: %s" % (type(inn).__name__, str(inn)[:150]),
+                                    wit, mech="refresh-raised:" + eff)
+                x3 = xr3.ravel()
+                val3 = 0.5 * float(np.sum(np.abs(Am3 @ x3 - yv) ** 2)) + lam / 2 * float(
+                    np.sum(np.abs(x3 - (0 if zv is None else zv)) ** 2)) + OPT.g_value(
+                        g, (Gm @ x3) if Gm is not None else x3)
+                gap3 = (val3 - low3) / max(1.0, abs(low3))
+                checks += 1
+                obs["refresh_gap_rel"] = gap3
+                sig += "|refresh"
+                if not (np.all(np.isfinite(x3)) and gap3 <= tol):
+                    return violated(sig, "after the arrays the forward operator was built from "
+                                    "(%s) were refreshed in place, a solve with the same "
+                                    "operator object misses the optimum of the refreshed problem "
+                                    "by %.3g (relative; solver %s)" % (
+                                        ", ".join(n_ for n_, _ in caps)[:100], gap3, eff), wit,
+                                    mech="refresh-suboptimal:" + eff, obs=obs)
     r = held(sig, {k: v for k, v in obs.items() if k != "y_unchanged"}, checks)
     r["tags"] = ["solver:" + eff] + ([] if obs["y_unchanged"] else ["caller-y-modified"])
     return r
